@@ -298,11 +298,11 @@ async def _run_app(
 
     runner = AppRunner(app, **kwargs)
 
-    await runner.setup()
-
     sites: list[BaseSite] = []
 
     try:
+        await runner.setup()
+
         if host is not None:
             if isinstance(host, str):
                 sites.append(
